@@ -70,11 +70,13 @@ def keptHeads (cached : Option (List Nat)) (L : Log) : List Nat :=
 /-- `AddOperation`: Append → status → put `_localHeads` → update index (→ emit write). The heads
 written are the new entry followed by the cached local heads the log has no entry for: the new entry
 names the heads of the log IN MEMORY, which covers the cached local head only if the log holds it —
-a store opened with `Load(n)` or `LoadFromSnapshot` may not (finding F33). -/
+a store opened with `Load(n)` or `LoadFromSnapshot` may not (finding F33). What the log holds is
+looked at BEFORE the append (finding F49: a head that a `Load` still running merges between the append
+and the look is held, yet the new entry does not name it). -/
 def Store.addOp (acl : Acl) (s : Store) (mk : Nat → List Nat → Entry) : Store × Except Err Entry :=
   match s.addOp0 acl mk with
   | (s', .error e) => (s', .error e)
-  | (s', .ok e) => ({ s' with localHeads := some (e.hash :: keptHeads s.localHeads s'.log) }, .ok e)
+  | (s', .ok e) => ({ s' with localHeads := some (e.hash :: keptHeads s.localHeads s.log) }, .ok e)
 
 /-- outcome of the per-head pre-check loop of `Sync` on heads that carry this log's id and a valid signature -/
 def syncPrecheck0 (acl : Acl) : List Entry → Err
